@@ -1096,15 +1096,17 @@ impl Case {
             }
             return;
         }
-        // the non-blocking ResolveFutures keeps unresolved futures for a later tick; it may emit
-        // them when re-polled after the downstream's finalize was started (see level_note)
+        // the non-blocking ResolveFutures keeps unresolved futures (in its external queue) for a later
+        // tick: at completion it has delivered only a part of the expected outputs. The protocol
+        // clauses (readied sends, no send once finalize was called) are checked for it like for
+        // every other combinator.
         let nonblocking = (comb == "resolve" && cfg.flag("waker")) || (comb == "pipe" && cfg.get("id") == Some("5"));
         // 1. protocol per port
         let mut delivered: Vec<Vec<String>> = vec![vec![]; nports.max(1)];
         let mut closed = vec![false; nports.max(1)];
         for port in 0..nports {
             let (mut ready, mut started, mut done) = (false, false, false);
-            let (mut unreadied, mut after_fin, mut after_done_lenient) = (0, 0, 0);
+            let (mut unreadied, mut after_fin) = (0, 0);
             for (p, e) in log.iter() {
                 if *p != port {
                     continue;
@@ -1115,11 +1117,7 @@ impl Case {
                         if !ready {
                             unreadied += 1;
                         }
-                        if nonblocking && port == 0 {
-                            if done {
-                                after_done_lenient += 1;
-                            }
-                        } else if started {
+                        if started {
                             after_fin += 1;
                         }
                         ready = false;
@@ -1136,8 +1134,6 @@ impl Case {
             closed[port] = done;
             rec.check(unreadied == 0, &format!("unreadied-send@{comb}"), &format!("port={port} n={unreadied} {d}"));
             rec.check(after_fin == 0, &format!("send-after-finalize@{comb}"), &format!("port={port} n={after_fin} {d}"));
-            // F124: only reachable when the caller polls again after Done (as Fanout does to a finished branch)
-            rec.check(after_done_lenient == 0, "send-after-finalize-done@resolve-nonblocking", &format!("port={port} n={after_done_lenient} {d}"));
         }
         rec.check(!log.iter().any(|(p, _)| *p >= nports.max(1)), &format!("stray-port@{comb}"), &d);
         // 2. driver-specific: finalize only after the pull ended, pull not polled after Ended
@@ -1213,6 +1209,57 @@ impl Case {
         rec.count(&format!("ready-pendings:{}", pend_r.min(4)));
         rec.count(&format!("finalize-pendings:{}", pend_f.min(4)));
         rec.count(&format!("mode:{}", if driver { "driver" } else { "manual" }));
+        // branch-level distribution per combinator, derived from the recorded trace:
+        //   drain-pend   = a downstream Pending right after a send on that port (Pending in the middle of a
+        //                  drain/replay/flush loop: FlatMap.buffer, Persist.replay_idx, Accumulate.phase, flush_items)
+        //   resume-send  = a send on a port after an earlier ready? Pending on it (the buffered item survived)
+        //   fin-pend     = finalize? Pending on a port, polled again later
+        //   repoll-done  = a port polled again after its finalize? Done (what Fanout/Unzip/DemuxVar/StatePush do)
+        //   split-ready / split-fin = two ports answered differently within one ready_both! evaluation
+        {
+            let mut pats: BTreeSet<&'static str> = BTreeSet::new();
+            for port in 0..nports {
+                let tr: Vec<&EvK> = log.iter().filter(|(p, _)| *p == port).map(|(_, e)| e).collect();
+                let mut seen_pend = false;
+                let mut seen_done = false;
+                for (i, e) in tr.iter().enumerate() {
+                    if seen_done {
+                        pats.insert("repoll-done");
+                    }
+                    match e {
+                        EvK::R(false) => {
+                            if i > 0 && matches!(tr[i - 1], EvK::S(_)) {
+                                pats.insert("drain-pend");
+                            }
+                            seen_pend = true;
+                        }
+                        EvK::S(_) if seen_pend => {
+                            pats.insert("resume-send");
+                        }
+                        EvK::F(false) if i + 1 < tr.len() => {
+                            pats.insert("fin-pend");
+                        }
+                        EvK::F(true) => seen_done = true,
+                        _ => {}
+                    }
+                }
+            }
+            for w in log.windows(2) {
+                match (&w[0], &w[1]) {
+                    ((p, EvK::R(a)), (q, EvK::R(b))) if p != q && a != b => {
+                        pats.insert("split-ready");
+                    }
+                    ((p, EvK::F(a)), (q, EvK::F(b))) if p != q && a != b => {
+                        pats.insert("split-fin");
+                    }
+                    _ => {}
+                }
+            }
+            let label = if comb == "pipe" { format!("pipe{}", cfg.get("id").unwrap_or("?")) } else if comb == "resolve" { format!("resolve-w{}", cfg.flag("waker") as u8) } else { comb.clone() };
+            for p in pats {
+                rec.count(&format!("br:{label}:{p}"));
+            }
+        }
         if self.calls_after_closed > 0 {
             rec.count("manual:calls-after-finalize-done");
         }
